@@ -529,7 +529,7 @@ func BuildPool(e *Eco, r *RNG, n int, extra []string) (*Pool, []string) {
 		}
 	}
 	clust0, nClust := r.Intn(nClusters), 0
-	nSib, nDec := 0, 0
+	nSib, nDec, nPseudo := 0, 0, 0
 	capClust, capSib, capDec := minInt(nClusters, 1+n/6), minInt(10, 1+n/20), minInt(10, 1+n/12)
 	// the maintainers' own test inputs: available to the crossover, a few join the pool
 	hv, _ := harvestedFor(e)
@@ -585,6 +585,14 @@ func BuildPool(e *Eco, r *RNG, n int, extra []string) (*Pool, []string) {
 				add(t)
 			}
 			nDec++
+		}
+		if e.Name == "golang" && nPseudo < 2 {
+			if fam := golangPseudoFamily(r, s); fam != nil {
+				for _, t := range fam {
+					add(t)
+				}
+				nPseudo++
+			}
 		}
 		// versions that differ only in one number, taken from both sides of one machine-word or
 		// decimal-width boundary (boundary.go)
